@@ -3,8 +3,12 @@
 stdin: {"cases": [{"grammar": text, "opts": {...}, "inputs": [text, ...]}]}
 stdout: per case {"grammar_error": str|None, "dump": <pegdump json>, "runs": [per input
         {"table": [[oid,pos,len]..], "tree_off", "tree_on" (Arpeggio level, canonical),
-         "model_off", "model_on" (textX level: canonical model or error)}]}
-The two metamodels are created through the public API with memoization=False / True.
+         "model_off", "model_on" (textX level: canonical model or error),
+         "model_off_reused", "model_on_reused"}]}
+Metamodels are created through the public API with memoization=False / True.  tree_* and model_*
+are each the FIRST parse of a freshly built metamodel (Arpeggio's caches are re-created at the end of
+every parse, so object-level sharing set up by the grammar compiler only shows in the first parse);
+model_*_reused come from one metamodel pair per grammar that is reused for all inputs (stale state).
 """
 import json
 import os
@@ -59,6 +63,17 @@ def load(mm, text):
     return {"ok": True, "model": canon_model(m)}
 
 
+def fresh(case, memo):
+    mm = metamodel_from_str(case["grammar"], memoization=memo, **case.get("opts", {}))
+    return mm, pegdump.dump_metamodel(mm)
+
+
+def strip(j):
+    j = dict(j)
+    j["memoization"] = False
+    return j
+
+
 def main():
     payload = json.load(sys.stdin)
     signal.signal(signal.SIGALRM, _alarm)
@@ -100,10 +115,19 @@ def main():
             run = {"table": d_off.oracle_table(text)}
             try:
                 signal.setitimer(signal.ITIMER_REAL, 3, 1)
-                run["tree_off"] = pegdump.parse_outcome(d_off, mm_off._parser_blueprint.clone(), text)
-                run["tree_on"] = pegdump.parse_outcome(d_on, mm_on._parser_blueprint.clone(), text)
-                run["model_off"] = load(mm_off, text)
-                run["model_on"] = load(mm_on, text)
+                # FIRST parse of a fresh metamodel (Arpeggio level), memoization off / on
+                f_off, fd_off = fresh(case, False)
+                f_on, fd_on = fresh(case, True)
+                if strip(fd_off.to_json()) != strip(j_off) or strip(fd_on.to_json()) != strip(j_off):
+                    raise pegdump.Unsupported("a fresh metamodel of the same grammar has a different parser model")
+                run["tree_off"] = pegdump.parse_outcome(fd_off, f_off._parser_blueprint.clone(), text)
+                run["tree_on"] = pegdump.parse_outcome(fd_on, f_on._parser_blueprint.clone(), text)
+                # FIRST model_from_str of another fresh metamodel (the property as stated)
+                run["model_off"] = load(fresh(case, False)[0], text)
+                run["model_on"] = load(fresh(case, True)[0], text)
+                # the metamodels of this grammar that are reused for all its inputs (history)
+                run["model_off_reused"] = load(mm_off, text)
+                run["model_on_reused"] = load(mm_on, text)
                 signal.setitimer(signal.ITIMER_REAL, 0)
             except Timeout:
                 run["timeout"] = True
